@@ -48,6 +48,7 @@ type c08call struct {
 	wire        string // expected bytes
 	err         error
 	returned    bool
+	bad         bool // cannot be serialized
 }
 
 func c08body(cfg c08cfg) func() {
@@ -166,6 +167,22 @@ func c08body(cfg c08cfg) func() {
 					iq := &stanza.IQ{Attrs: stanza.Attrs{Type: "get", Id: id, To: "example.org"}, Payload: &stanza.DiscoInfo{}}
 					b, _ := xml.Marshal(iq)
 					c.wire = string(b)
+				case "badmsg", "badext", "badiq":
+					var err error
+					var b []byte
+					switch op {
+					case "badmsg":
+						b, err = xml.Marshal(c08badMsg(id))
+					case "badext":
+						b, err = xml.Marshal(c08badExt(id))
+					default:
+						b, err = xml.Marshal(c08badIQ(id))
+					}
+					if err == nil {
+						c.wire = string(b) // this tree serializes it: an ordinary stanza then
+					} else {
+						c.bad = true
+					}
 				}
 				mine = append(mine, c)
 				calls = append(calls, c)
@@ -182,6 +199,12 @@ func c08body(cfg c08cfg) func() {
 						c.err = snd.Send(stanza.Presence{Attrs: stanza.Attrs{Id: id}, Status: "st " + id})
 					case "raw":
 						c.err = snd.SendRaw(c.wire)
+					case "badmsg":
+						c.err = snd.Send(c08badMsg(id))
+					case "badext":
+						c.err = snd.Send(c08badExt(id))
+					case "badiq":
+						c.err = snd.Send(c08badIQ(id))
 					case "iq":
 						ctx, cancel := vrt.WithTimeout(vrt.Background(), 10*time.Second)
 						_, c.err = snd.SendIQ(ctx, &stanza.IQ{Attrs: stanza.Attrs{Type: "get", Id: id, To: "example.org"}, Payload: &stanza.DiscoInfo{}})
@@ -219,6 +242,9 @@ func c08body(cfg c08cfg) func() {
 				return true
 			}
 			for _, c := range calls {
+				if c.bad {
+					continue // nothing of it may be on the wire
+				}
 				if !used[c] && strings.HasPrefix(stream[p:], c.wire) {
 					used[c] = true
 					order = append(order, c)
@@ -250,6 +276,9 @@ func c08body(cfg c08cfg) func() {
 				pos[c] = i
 			}
 			for _, c := range calls {
+				if c.bad && c.returned && c.err == nil {
+					vrt.Fail("C08|unserializable-reported-sent|op="+c.op, "%s: thread %d call %d (%s) cannot be serialized and Send returned nil", ctx, c.thread, c.idx, c.op)
+				}
 				if c.err == nil && c.returned {
 					if _, ok := pos[c]; !ok {
 						vrt.Fail("C08|successful-send-missing|op="+c.op, "%s: thread %d call %d (%s) returned nil but %q is not on the wire", ctx, c.thread, c.idx, c.op, c.wire)
@@ -296,6 +325,22 @@ func c08big(id string) string {
 	return id + ":" + strings.Repeat("0123456789abcdef", 2600) + ":" + id
 }
 
+// stanzas that cannot be serialized (the encoder refuses them part-way through): the call has to fail, and to leave
+// nothing behind - neither on the wire nor in whatever the sender keeps between calls
+func c08badMsg(id string) stanza.Message {
+	return stanza.Message{Attrs: stanza.Attrs{To: "peer@example.org", Id: id, Type: "error"}, Body: "refused " + id,
+		Error: stanza.Err{Type: stanza.ErrorTypeCancel, Reason: "item not found"}}
+}
+
+func c08badExt(id string) stanza.Message {
+	return stanza.Message{Attrs: stanza.Attrs{To: "peer@example.org", Id: id}, Body: "refused " + id,
+		Extensions: []stanza.MsgExtension{&stanza.Node{XMLName: xml.Name{Space: "urn:example:ext", Local: "ext"}, Nodes: []stanza.Node{{Content: "no name"}}}}}
+}
+
+func c08badIQ(id string) *stanza.IQ {
+	return &stanza.IQ{Attrs: stanza.Attrs{Type: "error", Id: id, To: "example.org"}, Error: &stanza.Err{Type: stanza.ErrorTypeCancel, Reason: "item not found"}}
+}
+
 func c08verdict(e *vrt.Exec) {
 	if e.Panic != nil {
 		vrt.Fail("C08|panic", "panic in T%d (%s): %s <- %s", e.Panic.Thread, e.Panic.Site, e.Panic.Value, trimStack(e.Panic.Stack))
@@ -329,6 +374,9 @@ func TestVerifC08(t *testing.T) {
 				// stanzas larger than internal buffers, sent concurrently
 				add(c08cfg{comp: comp, sm: sm, logger: logger, progs: [][]string{{"bigmsg"}, {"bigmsg"}}}, bound)
 				add(c08cfg{comp: comp, sm: sm, logger: logger, progs: [][]string{{"bigmsg"}, {"raw", "iq"}}}, bound)
+				// stanzas that the encoder refuses, among others (what a refused stanza leaves behind shows with the next)
+				add(c08cfg{comp: comp, sm: sm, logger: logger, progs: [][]string{{"badmsg", "msg", "badext", "pres"}, {"raw"}}}, bound)
+				add(c08cfg{comp: comp, sm: sm, logger: logger, progs: [][]string{{"badiq", "iq"}, {"badext", "msg"}}}, bound)
 				// write faults: one injected fault (deviation) among the calls
 				for _, a := range progsA[:4] {
 					add(c08cfg{comp: comp, sm: sm, logger: logger, faults: true, progs: [][]string{a, {"msg"}}}, bound)
